@@ -182,7 +182,8 @@ pub fn normalize(s: &str) -> String {
             run.push(c);
         } else {
             flush(&mut run, &mut out);
-            out.push(c);
+            // (signatures are matched by line-oriented regular expressions)
+            out.push(if c == '\n' || c == '\r' || c == '\t' { ' ' } else { c });
         }
     }
     flush(&mut run, &mut out);
